@@ -519,3 +519,39 @@ func EvolveBase() File {
 	}}
 	return File{Records: []*Record{ev, evEmpty, inStruct, inArray, inMap, inMsg, inUnion, unionHolder, outer, outerMsg, sibUnion}}
 }
+
+// EvolveImportedPair is a fixed (v1, v2) pair in which the evolved message lives in the IMPORTED file (generated
+// separately, as its own Go package) and is nested in records of the importing file, with something after it.
+func EvolveImportedPair() (File, File) {
+	mk := func(v2 bool) File {
+		ev := &Record{Kind: Message, Name: "ImpEv", Imported: true, Fields: []Field{
+			{Name: "a", Index: 1, Type: Prim("uint32")},
+			{Name: "b", Index: 2, Type: Prim("string")},
+		}}
+		if v2 {
+			ev.Fields = append(ev.Fields,
+				Field{Name: "extra", Index: 3, Type: Prim("string")},
+				Field{Name: "more", Index: 7, Type: Array(Prim("uint32"))})
+		}
+		return File{Records: []*Record{
+			ev,
+			{Kind: Struct, Name: "HoldsImp", Fields: []Field{
+				{Name: "before", Type: Prim("uint16")},
+				{Name: "m", Type: Named("ImpEv")},
+				{Name: "after", Type: Prim("uint32")},
+				{Name: "ms", Type: Array(Named("ImpEv"))},
+				{Name: "tail", Type: Prim("uint16")},
+			}},
+			{Kind: Message, Name: "MsgImp", Fields: []Field{
+				{Name: "m", Index: 1, Type: Named("ImpEv")},
+				{Name: "after", Index: 2, Type: Prim("uint32")},
+				{Name: "mm", Index: 3, Type: Map("uint8", Named("ImpEv"))},
+				{Name: "tail", Index: 4, Type: Prim("string")},
+			}},
+			{Kind: Union, Name: "UnionImp", Branches: []Branch{
+				{Disc: 1, Rec: &Record{Kind: Struct, Name: "UnionImpS", Fields: []Field{{Name: "m", Type: Named("ImpEv")}, {Name: "after", Type: Prim("uint8")}}}},
+			}},
+		}}
+	}
+	return mk(false), mk(true)
+}
